@@ -57,6 +57,10 @@ func init() {
 		{"C07", "adder", props.C07adder},
 		{"C05", "adder", props.C07adder},
 		{"C17", "garble", props.C01},
+		{"C20", "lostfield", props.LostFieldUpdates("ot", "vole", "bmr")},
+		{"C06", "lostfield", props.LostFieldUpdates("ot")},
+		{"C02", "lostfield", props.LostFieldUpdates("ot", "circuit", "p2p")},
+		{"C10", "lostfield", props.LostFieldUpdates("gmw", "p2p")},
 		{"C03", "truncmul", props.TruncatedProducts("compiler/mpa", "compiler/ast", "compiler/ssa")},
 		{"C12", "truncmul", props.TruncatedProducts("compiler/mpa", "compiler/ast", "compiler/ssa")},
 		{"C20", "truncmul", props.TruncatedProducts("vole", "bmr", "ot/mpint")},
